@@ -28,8 +28,10 @@ SHEET_OF = {
     "AIRDROP": "Airdrops", "HARDFORK": "Hard Forks", "INCOME": "Income", "INTEREST": "Interest", "MINING": "Mining", "STAKING": "Staking", "WAGES": "Wages",
     "SELL": "Capital Gains", "GIFT": "Gifts", "DONATE": "Donations", "FEE": "Investment Expenses", "LOST": "Investment Expenses", "MOVE": "Investment Expenses",
 }
+EARN_TYPES = ("AIRDROP", "HARDFORK", "INCOME", "INTEREST", "MINING", "STAKING", "WAGES")
 DATE_FMT = {"us": "%m/%d/%Y", "ie": "%Y/%m/%d"}
-WINDOWS: List[Tuple[Optional[date], Optional[date]]] = [(None, None), (date(2021, 1, 1), None), (None, date(2020, 12, 31))]
+# none / from / to, and both bounds ON the day of the first event of asset B1 (2020-09-01): inclusive on both sides
+WINDOWS: List[Tuple[Optional[date], Optional[date]]] = [(None, None), (date(2021, 1, 1), None), (None, date(2020, 12, 31)), (date(2020, 9, 1), date(2020, 9, 1))]
 
 
 def asset_specs(asset: str, kinds: Sequence[str], shift: int, zones: bool = False) -> List[Dict[str, Any]]:
@@ -106,6 +108,17 @@ def check(case: Dict[str, Any], res: Dict[str, Any]) -> Tuple[List[str], Dict[st
         for w in res["dumps"][asset]["detail"]:
             sheet = SHEET_OF[w["type"].upper()]
             want.setdefault(sheet, []).append(dict(w, asset=asset))
+    # which taxable events the window holds, from the input rows alone (own calendar date within [from, to], both inclusive)
+    from rp2verif.models.lots import parse_ts
+
+    fd, td = case["from"], case["to"]
+    for asset, specs in sorted(case["assets"].items()):
+        in_window = sorted(s["unique_id"] for s in specs
+                           if (s["table"] == "out" or (s["table"] == "in" and s["transaction_type"].upper() in EARN_TYPES) or (s["table"] == "intra" and s["crypto_sent"] != s["crypto_received"]))
+                           and (fd is None or parse_ts(s["timestamp"]).date() >= fd) and (td is None or parse_ts(s["timestamp"]).date() <= td))
+        computed = sorted({w["event_uid"] for w in res["dumps"][asset]["detail"]})
+        if computed != in_window:
+            problems.append(f"{asset}: fractions of events {computed} are in the computed window, taxable events dated inside the window are {in_window}")
     got_sheets = [n for n in files if n != "Legend"]
     if sorted(got_sheets) != sorted(want):
         problems.append(f"sheets {sorted(got_sheets)} != sheets with at least one fraction of their type {sorted(want)}")
@@ -212,7 +225,7 @@ def cases(tier: str) -> List[Dict[str, Any]]:
             # two kinds on ONE asset (the second six months later: separated by the window bounds)
             pairs = [(a, b) for a in KINDS for b in KINDS if a != b]
             if tier == "quick":
-                pairs = [p for i, p in enumerate(pairs) if i % 3 == (0 if w[0] is None and w[1] is None else 1 if w[0] else 2)]
+                pairs = [p for i, p in enumerate(pairs) if i % 4 == WINDOWS.index(w)]
             for a, b in pairs:
                 out.append(build_case([a, b], None, w, country))
     if tier == "thorough":
@@ -257,7 +270,7 @@ def main(tier: str, budget_s: Optional[float] = None) -> int:
         "fractions_located": total.get("fractions"),
         "sheets_read": total.get("sheets"),
         "rule": (
-            "US and IE plugins x window (none / from 2021-01-01 / to 2020-12-31) x { every single kind; every ordered pair (k1 on asset B1, k2 on asset B2) of "
+            "US and IE plugins x window (none / from 2021-01-01 / to 2020-12-31 / the single day of B1's first event) x { every single kind; every ordered pair (k1 on asset B1, k2 on asset B2) of "
             "the 14 taxable kinds; pairs of kinds on one asset six months apart (quick: a third of them per window); all 14 kinds on one and on both assets }; "
             "each disposal spans a lot older and a lot younger than one year; a variant writes timestamps at 23:30-05:00 / 00:30+09:00 / 22:00-04:00 (own date != UTC date). One evaluation = one real generator run read back; non-trivial = two assets"
         ),
